@@ -53,9 +53,18 @@ def blob(r, big=False) -> bytes:
     if big and r.random() < 0.006:
         n = r.choice([65000, 65535, 40000, 65525])
     if n <= 64:
-        return bytes(r.getrandbits(8) for _ in range(n))
-    pat = bytes(r.getrandbits(8) for _ in range(61))
-    return (pat * (n // 61 + 1))[:n]
+        out = bytearray(r.getrandbits(8) for _ in range(n))
+    else:
+        pat = bytes(r.getrandbits(8) for _ in range(61))
+        out = bytearray((pat * (n // 61 + 1))[:n])
+    # opaque byte fields: the bytes a "tidy-up" would strip (NUL / space / newline padding) at either end
+    if n and r.random() < 0.3:
+        out[-1] = r.choice([0, 0, 0, 0x20, 0x0A])
+        if n > 1 and r.random() < 0.3:
+            out[-2] = out[-1]
+    if n and r.random() < 0.12:
+        out[0] = r.choice([0, 0x20, 0x0A])
+    return bytes(out)
 
 
 def ctx_id(r, strict=True) -> int:
